@@ -110,7 +110,7 @@ def emit_cases(ctx, label, **consts):
                                   cas=sorted(v[10]['$set']),
                                   revoked=sorted(v[11]['$set']),
                                   userSet=v[12], globalSet=v[13],
-                                  shape=v[14], hostform=v[15]))
+                                  shape=v[14], hostform=v[15], now=v[16]))
         ctx.require(cases, f'no cases printed by TLC for {label}')
         return cases
     return table
@@ -165,6 +165,9 @@ def main(ctx):
         'IPv6 literal x what the pattern matches through',
         Focus='"shape"', LineKeys='{"K1", "CA1"}'),
         450 if quick else None))
+    tables.append(('time', emit_cases(
+        ctx, 'one certificate while the clock advances', Focus='"time"'),
+        None))
     tables.append(('sources', emit_cases(
         ctx, 'where the trust data comes from: default file, '
         'UserKnownHostsFile / GlobalKnownHostsFile, lines split over them',
@@ -204,6 +207,7 @@ def main(ctx):
             ('skipRevokedKey', dict(LineKeys='{"K1", "CA1"}')),
             ('princIgnored', dict(Focus='"cert"')),
             ('cbWaivesCertChecks', dict(Focus='"cbcert"')),
+            ('clockFrozenAtStart', dict(Focus='"time"')),
             ('cidrNeedsPeerAddr', dict(Focus='"shape"',
                                        LineKeys='{"K1", "CA1"}')),
             ('globalOnlyFallback', dict(Focus='"sources"',
@@ -237,7 +241,8 @@ def main(ctx):
         resolved = {}
         # the long tables were submitted first; consume the short ones
         # first so that the replay overlaps with the remaining TLC runs
-        order = ['cert', 'trustall', 'callbacks', 'cbcert', 'shape', 'sources',
+        order = ['time', 'cert', 'trustall', 'callbacks', 'cbcert', 'shape',
+                 'sources',
                  'sets3', 'lines', 'sets4', 'lines3']
         tables.sort(key=lambda t: order.index(t[0]))
         for tname, tablef, limit in tables:
@@ -249,8 +254,15 @@ def main(ctx):
             rnd.shuffle(idx)
             if limit is not None and limit < len(idx):
                 idx = stratified(table, idx, limit, 10 if quick else 60)
+            if tname == 'time':
+                # the same process looks at each certificate at several
+                # clock values, forwards and backwards in time
+                fwd = sorted(range(len(table)), key=lambda i: table[i]['now'])
+                idx = fwd + fwd[::-1] + fwd
             for n, i in enumerate(idx):
                 case = table[i]
+                if tname == 'time':
+                    case = dict(case, time_focus=True)
                 variant = rnd.randrange(1 << 20)
                 if tname.startswith('sets'):
                     case = dict(case, shuffle=True)
@@ -453,6 +465,8 @@ def slim(case):
         d['userSet'], d['globalSet'] = case['userSet'], case['globalSet']
     if case.get('shape', 'na') != 'na':
         d['shape'], d['hostform'] = case['shape'], case['hostform']
+    if case.get('time_focus'):
+        d['now'], d['time_focus'] = case['now'], True
     return d
 
 
